@@ -1735,6 +1735,291 @@ pub proof fn lemma_window_after_expire<K: ExpiredKey, V>(b1: Buf<K, V>, g1: G, r
     }
 }
 
+
+// ---------------------------------------------------------------------------------------------
+// clear(): breadth-first release of every slot, using the free list itself as the queue
+
+// P = the slots pushed so far (in order); d = how many of them have had their children pushed;
+// cur_left: the left child of P[d] has already been pushed (only meaningful while P[d] is being processed)
+pub open spec fn bfs_inv<K, V>(b0: Buf<K, V>, g0: G, r0: u32, p: Seq<u32>, d: int, cur_left: bool) -> bool {
+    &&& 0 <= d <= p.len() && p.len() >= 1 && p[0] == r0
+    &&& forall|k: int| 0 <= k < p.len() ==> in_tree(b0, g0, #[trigger] p[k] as int)
+    &&& forall|k1: int, k2: int| 0 <= k1 < k2 < p.len() ==> p[k1] != p[k2]
+    // every pushed slot except the root was pushed as a child of an already processed slot, or as the left child of the current one
+    &&& forall|k: int| 1 <= k < p.len() ==> {
+            let par = b0[#[trigger] p[k] as int].parent;
+            exists|j: int| 0 <= j <= d && j < p.len() && p[j] == par && (j < d || (cur_left && b0[par as int].left == p[k]))
+        }
+    // processed slots have all their children pushed
+    &&& forall|j: int| 0 <= j < d ==> {
+            let nd = b0[#[trigger] p[j] as int];
+            (nd.left == EMPTY_REF || p.contains(nd.left)) && (nd.right == EMPTY_REF || p.contains(nd.right))
+        }
+    &&& (cur_left && d < p.len()) ==> (b0[p[d] as int].left == EMPTY_REF || p.contains(b0[p[d] as int].left))
+}
+
+// a child of the slot being processed has not been pushed yet
+pub proof fn lemma_bfs_fresh<K: Ord, V>(b0: Buf<K, V>, g0: G, r0: u32, p: Seq<u32>, d: int, cur_left: bool, c: u32)
+    requires
+        sinv(b0, g0, r0), bfs_inv(b0, g0, r0, p, d, cur_left), d < p.len(),
+        c != EMPTY_REF,
+        (!cur_left && c == b0[p[d] as int].left) || (cur_left && c == b0[p[d] as int].right),
+    ensures
+        !p.contains(c), in_tree(b0, g0, c as int),
+{
+    reveal(sinv);
+    let x = p[d] as int;
+    assert(node_ok(b0, g0, r0, x));
+    assert(in_tree(b0, g0, c as int));
+    assert(node_ok(b0, g0, r0, c as int));
+    if p.contains(c) {
+        let k = choose|k: int| 0 <= k < p.len() && p[k] == c;
+        if k == 0 {
+            assert(node_ok(b0, g0, r0, r0 as int));
+        } else {
+            let par = b0[p[k] as int].parent;
+            let j = choose|j: int| 0 <= j <= d && j < p.len() && p[j] == par && (j < d || (cur_left && b0[par as int].left == p[k]));
+            assert(par as int == x);
+            assert(p[j] == p[d]);
+            assert(j == d);
+        }
+    }
+}
+
+// when every pushed slot has been processed, the pushed slots are exactly the slots of the tree
+pub proof fn lemma_bfs_complete<K: Ord, V>(b0: Buf<K, V>, g0: G, r0: u32, p: Seq<u32>, i: int)
+    requires
+        sinv(b0, g0, r0), bfs_inv(b0, g0, r0, p, p.len() as int, false), in_tree(b0, g0, i),
+    ensures
+        p.contains(i as u32),
+    decreases g0.ord.len() - range_len(g0, i),
+{
+    reveal(sinv);
+    assert(node_ok(b0, g0, r0, i));
+    let par = b0[i].parent;
+    if par == EMPTY_REF {
+        assert(i == r0 as int);
+        assert(p[0] == i as u32);
+    } else {
+        assert(node_ok(b0, g0, r0, par as int));
+        lemma_bfs_complete(b0, g0, r0, p, par as int);
+        let j = choose|j: int| 0 <= j < p.len() && p[j] == par;
+        let nd = b0[p[j] as int];
+        assert((nd.left == EMPTY_REF || p.contains(nd.left)) && (nd.right == EMPTY_REF || p.contains(nd.right)));
+    }
+}
+
+
+pub proof fn lemma_bfs_left<K: Ord, V>(b0: Buf<K, V>, g0: G, r0: u32, p: Seq<u32>, d: int) -> (p1: Seq<u32>)
+    requires sinv(b0, g0, r0), bfs_inv(b0, g0, r0, p, d, false), d < p.len(),
+    ensures
+        p1 == (if b0[p[d] as int].left != EMPTY_REF { p.push(b0[p[d] as int].left) } else { p }),
+        bfs_inv(b0, g0, r0, p1, d, true),
+{
+    let x = p[d] as int;
+    let c = b0[x].left;
+    if c == EMPTY_REF {
+        assert forall|k: int| 1 <= k < p.len() implies {
+            let par = b0[#[trigger] p[k] as int].parent;
+            exists|j: int| 0 <= j <= d && j < p.len() && p[j] == par && (j < d || (true && b0[par as int].left == p[k]))
+        } by {
+            let par = b0[p[k] as int].parent;
+            let j = choose|j: int| 0 <= j <= d && j < p.len() && p[j] == par && (j < d || (false && b0[par as int].left == p[k]));
+            assert(j < d);
+        }
+        p
+    } else {
+        lemma_bfs_fresh(b0, g0, r0, p, d, false, c);
+        let p1 = p.push(c);
+        assert forall|k: int| 0 <= k < p1.len() implies in_tree(b0, g0, #[trigger] p1[k] as int) by { if k < p.len() { assert(p1[k] == p[k]); } }
+        assert forall|k1: int, k2: int| 0 <= k1 < k2 < p1.len() implies p1[k1] != p1[k2] by {
+            if k2 < p.len() { assert(p1[k1] == p[k1] && p1[k2] == p[k2]); } else { assert(p1[k1] == p[k1]); assert(p.contains(p[k1])); }
+        }
+        assert forall|k: int| 1 <= k < p1.len() implies {
+            let par = b0[#[trigger] p1[k] as int].parent;
+            exists|j: int| 0 <= j <= d && j < p1.len() && p1[j] == par && (j < d || (true && b0[par as int].left == p1[k]))
+        } by {
+            if k < p.len() {
+                assert(p1[k] == p[k]);
+                let par = b0[p[k] as int].parent;
+                let j = choose|j: int| 0 <= j <= d && j < p.len() && p[j] == par && (j < d || (false && b0[par as int].left == p[k]));
+                assert(p1[j] == par && j < d);
+            } else {
+                reveal(sinv);
+                assert(node_ok(b0, g0, r0, x));
+                assert(p1[d] == p[d]);
+                assert(b0[c as int].parent as int == x);
+            }
+        }
+        assert forall|j: int| 0 <= j < d implies {
+            let nd = b0[#[trigger] p1[j] as int];
+            (nd.left == EMPTY_REF || p1.contains(nd.left)) && (nd.right == EMPTY_REF || p1.contains(nd.right))
+        } by {
+            assert(p1[j] == p[j]);
+            let nd = b0[p[j] as int];
+            if nd.left != EMPTY_REF { let k = choose|k: int| 0 <= k < p.len() && p[k] == nd.left; assert(p1[k] == nd.left); }
+            if nd.right != EMPTY_REF { let k = choose|k: int| 0 <= k < p.len() && p[k] == nd.right; assert(p1[k] == nd.right); }
+        }
+        assert(p1[d] == p[d]);
+        assert(p1[p.len() as int] == c);
+        p1
+    }
+}
+
+pub proof fn lemma_bfs_right<K: Ord, V>(b0: Buf<K, V>, g0: G, r0: u32, p: Seq<u32>, d: int) -> (p1: Seq<u32>)
+    requires sinv(b0, g0, r0), bfs_inv(b0, g0, r0, p, d, true), d < p.len(),
+    ensures
+        p1 == (if b0[p[d] as int].right != EMPTY_REF { p.push(b0[p[d] as int].right) } else { p }),
+        bfs_inv(b0, g0, r0, p1, d + 1, false),
+{
+    let x = p[d] as int;
+    let c = b0[x].right;
+    if c == EMPTY_REF {
+        assert forall|k: int| 1 <= k < p.len() implies {
+            let par = b0[#[trigger] p[k] as int].parent;
+            exists|j: int| 0 <= j <= d + 1 && j < p.len() && p[j] == par && (j < d + 1 || (false && b0[par as int].left == p[k]))
+        } by {
+            let par = b0[p[k] as int].parent;
+            let j = choose|j: int| 0 <= j <= d && j < p.len() && p[j] == par && (j < d || (true && b0[par as int].left == p[k]));
+            assert(j < d + 1);
+        }
+        p
+    } else {
+        lemma_bfs_fresh(b0, g0, r0, p, d, true, c);
+        let p1 = p.push(c);
+        assert forall|k: int| 0 <= k < p1.len() implies in_tree(b0, g0, #[trigger] p1[k] as int) by { if k < p.len() { assert(p1[k] == p[k]); } }
+        assert forall|k1: int, k2: int| 0 <= k1 < k2 < p1.len() implies p1[k1] != p1[k2] by {
+            if k2 < p.len() { assert(p1[k1] == p[k1] && p1[k2] == p[k2]); } else { assert(p1[k1] == p[k1]); assert(p.contains(p[k1])); }
+        }
+        assert forall|k: int| 1 <= k < p1.len() implies {
+            let par = b0[#[trigger] p1[k] as int].parent;
+            exists|j: int| 0 <= j <= d + 1 && j < p1.len() && p1[j] == par && (j < d + 1 || (false && b0[par as int].left == p1[k]))
+        } by {
+            if k < p.len() {
+                assert(p1[k] == p[k]);
+                let par = b0[p[k] as int].parent;
+                let j = choose|j: int| 0 <= j <= d && j < p.len() && p[j] == par && (j < d || (true && b0[par as int].left == p[k]));
+                assert(p1[j] == par && j < d + 1);
+            } else {
+                reveal(sinv);
+                assert(node_ok(b0, g0, r0, x));
+                assert(p1[d] == p[d]);
+                assert(b0[c as int].parent as int == x);
+            }
+        }
+        assert forall|j: int| 0 <= j < d + 1 implies {
+            let nd = b0[#[trigger] p1[j] as int];
+            (nd.left == EMPTY_REF || p1.contains(nd.left)) && (nd.right == EMPTY_REF || p1.contains(nd.right))
+        } by {
+            assert(p1[j] == p[j]);
+            let nd = b0[p[j] as int];
+            if nd.left != EMPTY_REF { let k = choose|k: int| 0 <= k < p.len() && p[k] == nd.left; assert(p1[k] == nd.left); }
+            if j < d { if nd.right != EMPTY_REF { let k = choose|k: int| 0 <= k < p.len() && p[k] == nd.right; assert(p1[k] == nd.right); } }
+            else { assert(p1[p.len() as int] == c); }
+        }
+        p1
+    }
+}
+
+
+// the state after clear: nothing in the tree, every slot of 1..len on the free list exactly once
+pub proof fn lemma_clear_finish<K: Ord, V>(b0: Buf<K, V>, g0: G, r0: u32, u0: Seq<u32>, p: Seq<u32>) -> (g1: G)
+    requires
+        wf(b0, g0, r0, u0), r0 != EMPTY_REF,
+        bfs_inv(b0, g0, r0, p, p.len() as int, false),
+    ensures
+        g1 == (G { ord: Seq::<u32>::empty(), ng: Seq::new(b0.len(), |i: int| NG { pos: -1, a: 0, b: 0, bh: 0 }) }),
+        wf(b0, g1, EMPTY_REF, u0 + p),
+        ents(b0, g1) =~= Seq::<Entity<K, V>>::empty(),
+{
+    let g1 = G { ord: Seq::<u32>::empty(), ng: Seq::new(b0.len(), |i: int| NG { pos: -1, a: 0, b: 0, bh: 0 }) };
+    let u1 = u0 + p;
+    reveal(sinv); reveal(cinv);
+    assert(sorted(b0, g1)) by { reveal(sorted); }
+    assert forall|i: int| !in_tree(b0, g1, i) by { }
+    assert forall|i: int| in_tree(b0, g0, i) implies p.contains(i as u32) by { lemma_bfs_complete(b0, g0, r0, p, i); }
+    assert forall|k: int| 0 <= k < u1.len() implies 1 <= (#[trigger] u1[k]) as int && (u1[k] as int) < b0.len() && !in_tree(b0, g1, u1[k] as int) by {
+        if k < u0.len() { assert(u1[k] == u0[k]); } else { assert(u1[k] == p[k - u0.len()]); assert(in_tree(b0, g0, p[k - u0.len()] as int)); }
+    }
+    assert forall|k1: int, k2: int| 0 <= k1 < k2 < u1.len() implies u1[k1] != u1[k2] by {
+        let n0 = u0.len() as int;
+        if k2 < n0 { assert(u1[k1] == u0[k1] && u1[k2] == u0[k2]); }
+        else if k1 >= n0 { assert(u1[k1] == p[k1 - n0] && u1[k2] == p[k2 - n0]); }
+        else { assert(u1[k1] == u0[k1] && u1[k2] == p[k2 - n0]); assert(in_tree(b0, g0, p[k2 - n0] as int)); assert(!in_tree(b0, g0, u0[k1] as int)); }
+    }
+    assert forall|i: int| 1 <= i < b0.len() && !in_tree(b0, g1, i) implies #[trigger] u1.contains(i as u32) by {
+        if in_tree(b0, g0, i) {
+            let k = choose|k: int| 0 <= k < p.len() && p[k] == i as u32;
+            assert(u1[u0.len() + k] == i as u32);
+        } else {
+            assert(u0.contains(i as u32));
+            let k = choose|k: int| 0 <= k < u0.len() && u0[k] == i as u32;
+            assert(u1[k] == i as u32);
+        }
+    }
+    // counting: p is a duplicate-free enumeration of the tree, so |p| == |ord|
+    lemma_bfs_count(b0, g0, r0, p);
+    g1
+}
+
+// a duplicate-free sequence of slots that contains exactly the slots of the tree is as long as the order
+pub proof fn lemma_bfs_count<K: Ord, V>(b0: Buf<K, V>, g0: G, r0: u32, p: Seq<u32>)
+    requires
+        sinv(b0, g0, r0), bfs_inv(b0, g0, r0, p, p.len() as int, false),
+    ensures
+        p.len() == g0.ord.len(),
+{
+    reveal(sinv);
+    // both p and ord are duplicate-free and have the same elements
+    assert(p.no_duplicates());
+    assert(g0.ord.no_duplicates()) by {
+        assert forall|q1: int, q2: int| 0 <= q1 < g0.ord.len() && 0 <= q2 < g0.ord.len() && q1 != q2 implies g0.ord[q1] != g0.ord[q2] by {
+            assert(g0.ng[g0.ord[q1] as int].pos == q1 && g0.ng[g0.ord[q2] as int].pos == q2);
+        }
+    }
+    assert forall|x: u32| p.contains(x) <==> g0.ord.contains(x) by {
+        if p.contains(x) {
+            let k = choose|k: int| 0 <= k < p.len() && p[k] == x;
+            assert(in_tree(b0, g0, p[k] as int));
+            assert(g0.ord[g0.ng[x as int].pos] == x);
+        }
+        if g0.ord.contains(x) {
+            let q = choose|q: int| 0 <= q < g0.ord.len() && g0.ord[q] == x;
+            assert(g0.ng[g0.ord[q] as int].pos == q);
+            assert(in_tree(b0, g0, x as int));
+            lemma_bfs_complete(b0, g0, r0, p, x as int);
+        }
+    }
+    assert(p.to_set() =~= g0.ord.to_set());
+    p.unique_seq_to_set();
+    g0.ord.unique_seq_to_set();
+}
+
+
+// the pushed slots are distinct slots of the tree, so there are at most |ord| of them (termination of clear)
+pub proof fn lemma_bfs_count_le<K: Ord, V>(b0: Buf<K, V>, g0: G, r0: u32, p: Seq<u32>, d: int, cur_left: bool)
+    requires sinv(b0, g0, r0), bfs_inv(b0, g0, r0, p, d, cur_left),
+    ensures p.len() <= g0.ord.len(),
+{
+    reveal(sinv);
+    assert(p.no_duplicates());
+    assert(g0.ord.no_duplicates()) by {
+        assert forall|q1: int, q2: int| 0 <= q1 < g0.ord.len() && 0 <= q2 < g0.ord.len() && q1 != q2 implies g0.ord[q1] != g0.ord[q2] by {
+            assert(g0.ng[g0.ord[q1] as int].pos == q1 && g0.ng[g0.ord[q2] as int].pos == q2);
+        }
+    }
+    assert(p.to_set().subset_of(g0.ord.to_set())) by {
+        assert forall|x: u32| p.to_set().contains(x) implies g0.ord.to_set().contains(x) by {
+            let k = choose|k: int| 0 <= k < p.len() && p[k] == x;
+            assert(in_tree(b0, g0, p[k] as int));
+            assert(g0.ord[g0.ng[x as int].pos] == x);
+        }
+    }
+    p.unique_seq_to_set();
+    g0.ord.unique_seq_to_set();
+    vstd::set_lib::lemma_len_subset(p.to_set(), g0.ord.to_set());
+}
+
 // exact effect of rotate_left(x) on links, root and ghost ranges
 pub open spec fn rot_left_rel<K, V>(b1: Buf<K, V>, g1: G, r1: u32, b0: Buf<K, V>, g0: G, r0: u32, x: int) -> bool {
     let y = b0[x].right;
@@ -3771,6 +4056,89 @@ impl<K: Copy + Ord + Default, V: Clone + Default> MapTree<K, V> {
                 }
             }
             parent_index
+        }
+    }
+
+
+    fn clear(&mut self)
+        requires
+            wf(old(self).store.buffer@, old(self).g@, old(self).root, old(self).store.unused@),
+        ensures
+            wf(final(self).store.buffer@, final(self).g@, final(self).root, final(self).store.unused@),
+            final(self).g@.ord.len() == 0,
+            final(self).root == EMPTY_REF,
+            final(self).store.buffer@ == old(self).store.buffer@,
+    {
+        if self.root == EMPTY_REF {
+            proof { reveal(sinv); }
+            return;
+        }
+        let ghost b0 = self.store.buffer@; let ghost g0 = self.g@; let ghost r0 = self.root; let ghost u0 = self.store.unused@;
+        self.store.put_back(self.root);
+        self.root = EMPTY_REF;
+        let ghost mut p: Seq<u32> = seq![r0];
+        let ghost mut d: int = 0;
+        proof {
+            reveal(sinv);
+            assert(u0.push(r0) =~= u0 + p);
+            assert(bfs_inv(b0, g0, r0, p, 0, false));
+        }
+
+        let mut n = 1;
+        while n > 0
+            invariant
+                wf(b0, g0, r0, u0), r0 != EMPTY_REF,
+                self.store.buffer@ == b0, self.g@ == g0, self.root == EMPTY_REF,
+                self.store.unused@ == u0 + p,
+                bfs_inv(b0, g0, r0, p, d, false),
+                n as int == p.len() - d,
+            decreases g0.ord.len() - d,
+        {
+            let i0 = self.store.unused.len() - n;
+            n = 0;
+            let ghost pend = p.len() as int;
+            let ghost d0 = d;
+            for i in iter: i0..self.store.unused.len()
+                invariant
+                    wf(b0, g0, r0, u0), r0 != EMPTY_REF,
+                    self.store.buffer@ == b0, self.g@ == g0, self.root == EMPTY_REF,
+                    self.store.unused@ == u0 + p,
+                    bfs_inv(b0, g0, r0, p, d, false),
+                    i0 as int == u0.len() + d0, iter.snapshot.end as int == u0.len() + pend,
+                    d == d0 + (i - i0), d0 < pend, pend <= p.len(),
+                    n as int == p.len() - pend,
+            {
+                proof { assert((u0 + p)[i as int] == p[d]); reveal(sinv); assert(in_tree(b0, g0, p[d] as int)); }
+                let index = self.store.unused[i];
+                let node = self.node(index);
+                let left = node.left;
+                let right = node.right;
+                if left != EMPTY_REF {
+                    self.store.put_back(left);
+                    proof { lemma_bfs_count_le(b0, g0, r0, p, d, false); reveal(sinv); assert(n as int <= p.len() && p.len() <= g0.ord.len() && g0.ord.len() < b0.len() && b0.len() < EMPTY_REF); }
+                    n += 1;
+                }
+                proof {
+                    let p1 = lemma_bfs_left(b0, g0, r0, p, d);
+                    assert(self.store.unused@ =~= u0 + p1);
+                    p = p1;
+                }
+                if right != EMPTY_REF {
+                    self.store.put_back(right);
+                    proof { lemma_bfs_count_le(b0, g0, r0, p, d, true); reveal(sinv); assert(n as int <= p.len() && p.len() <= g0.ord.len() && g0.ord.len() < b0.len() && b0.len() < EMPTY_REF); }
+                    n += 1;
+                }
+                proof {
+                    let p1 = lemma_bfs_right(b0, g0, r0, p, d);
+                    assert(self.store.unused@ =~= u0 + p1);
+                    p = p1;
+                    d = d + 1;
+                }
+            }
+            proof { lemma_bfs_count_le(b0, g0, r0, p, d, false); }
+        }
+        proof {
+            self.g@ = lemma_clear_finish(b0, g0, r0, u0, p);
         }
     }
 
